@@ -800,6 +800,10 @@ def directed_c03():
     D.append(("multi_define_reassigns_after_yield", [("decl", "x", "a + 1"), ("raw", "get := func() int { return x }"), Y("get()"), ("raw", "x, y := b+2, a+3"), Y("x + y"), Y("get() + 5")]))
     D.append(("multi_define_reassigns_in_thunk_block", [("decl", "x", "a + 1"), Y("x"), ("if", "g1", [("raw", "x, z := b+2, 7\n_ = z"), Y("x + 1")], None), Y("x + 2")]))
     D.append(("multi_define_reassigns_before_yield", [("decl", "x", "a + 1"), ("raw", "x, y := b+2, a+3"), Y("x + y"), Y("x + 5")]))
+    D.append(("multi_define_in_case_clause_after_yield", [("switch", None, "b & 1", [("0", [("decl", "x", "a + 1"), ("raw", "get := func() int { return x }"), Y("get()"), ("raw", "x, y := b+2, a+3"), Y("x + y"), Y("get() + 5")])], [Y("a")]), Y("b + 9")]))
+    D.append(("multi_define_in_tswitch_clause_after_yield", [("raw", "var t any = b"), ("tswitch", "v", "t", [("int", [("decl", "x", "a + 1"), ("raw", "p := &x"), Y("v + x"), ("raw", "x, w := v+2, a+3"), Y("x + w"), Y("*p + 5")])], None), Y("b + 9")]))
+    D.append(("multi_define_in_default_clause_after_yield", [("switch", None, "b & 1", [("0", [Y("a")])], [("decl", "x", "a + 1"), ("raw", "set := func(v int) { x = v }"), Y("x + 1"), ("raw", "x, y := b+2, a+3"), ("raw", "set(x + y)"), Y("x + 2")]), Y("b + 9")]))
+    D.append(("multi_define_in_if_and_loop_after_yield", [("decl", "x", "a + 1"), ("raw", "get := func() int { return x }"), ("for", ("decl", "i", "0"), "i < n", ("inc", "i"), [Y("get() + i"), ("raw", "x, y := x+i, i"), Y("x + y")]), ("if", "g1", [Y("x"), ("raw", "x, z := b, 1"), Y("x + z + get()")], None), Y("get() + 9")]))
     D.append(("init_after_yield", [Y("a + 1"), ("for", ("decl", "x", "a"), "x < a + n", ("inc", "x"), [Y("x + 2")]), ("decl", "x", "b"), Y("x + 3")]))
     D.append(("if_else_scopes", [("decl", "x", "a"), ("if", "g1", [("decl", "x", "b + 1"), Y("x + 2")], [("assign", "x", "x + 3"), Y("x + 4")]), Y("x + 5")]))
     return D
